@@ -1,2 +1,305 @@
-/- Property theorems for C16 (placeholder until the proofs land). -/
-import Avt.Spec.C16
+/-
+  Avt.Props.C16 — the alternate screen never disturbs the primary screen.
+
+  Vocabulary (Avt/Spec/C16.lean, the definitions the oracle evaluates): `endsExcursion` (leaving =
+  DECRST 47/1047/1049, or RIS), `isAltScreenMode`, `emitted`, `freshAlternate`, `entryCtx`,
+  `parkedCtx`, `sameBuffer`, `trimmedSb`, `primaryRestored`, `ctxRestored`, `textRel`, `ResizeSame`.
+
+  Proved, for all states and all sizes:
+  * `C16_frame`          every function except leaving and RIS, executed on the alternate screen,
+                         leaves `otherBuffer` (the parked primary), `alternateSavedCtx` (its saved
+                         context) and `activeBufferType` untouched — no invariant needed;
+  * `C16_frame_resize`   so does `Terminal.resize` (only the active buffer is reflowed);
+  * `C16_text_const`     hence `text()` is constant;
+  * `C16_feedAll`, `C16_feedStr`, `C16_vtResize`   the same through the parser / the public calls,
+                         with the side condition on the emitted function list;
+  * `C16_enter`          entering gives a blank screen of the current pen, parks the primary buffer
+                         unchanged and (1049) saves the cursor context;
+  * `C16_roundtrip`      enter, any function list without leave/RIS, leave: back on the primary with
+                         the same view, scrollback, size, limit and text (function level: no resize
+                         can happen between, `geo_execute`);  `C16_roundtrip_api` adds the `gc()` that
+                         ends the leaving call (`primaryRestored`, i.e. scrollback `trimmedSb`);
+  * `C16_1049`           with `?1049h … ?1049l` the cursor is back at `(min col (cols-1), row)` with
+                         the pen, origin mode and auto-wrap mode of the mark, `pending_wrap` off.
+  `ResizeSame` (same-geometry `Buffer.resize` only sets `trim_needed`) is a hypothesis of the
+  `_of` versions and is discharged by `Avt.Buffer.resize_same` (Avt/Lemmas/ResizeSame.lean); invariant
+  preservation along the excursion comes from `Avt.Terminal.execute_ok` (Avt/Lemmas/InvTerminal.lean)
+  with `Avt.resizeOK`.
+
+  Not proved here: the resized-excursion clause (`C16_resized_full`) — it is the statement of C10 about
+  the deferred `Buffer.resize`, applied with the old-geometry cursor; kept as a `def … : Prop`.
+-/
+import Avt.Lemmas.C16Text
+import Avt.Lemmas.ResizeSame
+import Avt.Lemmas.InvTerminal
+
+namespace Avt.Props.C16
+open Avt Avt.Spec.C16 Avt.C16
+
+/-! ### frame -/
+
+/-- **C16_frame.**  On the alternate screen every function other than leaving it (DECRST
+    47/1047/1049) and RIS leaves the parked primary buffer, its saved context and the active screen
+    as they are.  (`?1049h` while already on the alternate screen saves into `savedCtx`, the
+    alternate's own context.) -/
+theorem C16_frame {t t' : Terminal} {f : Function} (ha : t.activeBufferType = .alternate)
+    (hf : endsExcursion f = false) (h : t.execute f = some t') :
+    t'.otherBuffer = t.otherBuffer ∧ t'.alternateSavedCtx = t.alternateSavedCtx
+      ∧ t'.activeBufferType = .alternate := by
+  obtain ⟨h1, h2, h3⟩ := fr_parts (fr_execute ha hf h)
+  exact ⟨h1, h2, h3.trans ha⟩
+
+/-- `resize` reflows the active buffer only -/
+theorem C16_frame_resize {t t' : Terminal} {c r : Nat} (h : t.resize c r = some t') :
+    t'.otherBuffer = t.otherBuffer ∧ t'.alternateSavedCtx = t.alternateSavedCtx
+      ∧ t'.activeBufferType = t.activeBufferType := fr_parts (fr_resize h)
+
+/-- hence `text()` is constant while the alternate screen is showing -/
+theorem C16_text_const {t t' : Terminal} {f : Function} (ha : t.activeBufferType = .alternate)
+    (hf : endsExcursion f = false) (h : t.execute f = some t') : t'.text = t.text := by
+  obtain ⟨h1, _, h3⟩ := C16_frame ha hf h
+  rw [text_alt ha, text_alt h3, h1]
+
+/-- the frame property through the parser: a whole input string none of whose emitted functions
+    leaves the alternate screen or is RIS -/
+theorem C16_feedAll {v v' : Vt} {s : List Nat} (ha : v.terminal.activeBufferType = .alternate)
+    (hf : ∀ f ∈ emitted v.parser s, endsExcursion f = false) (h : v.feedAll s = some v') :
+    v'.terminal.otherBuffer = v.terminal.otherBuffer
+      ∧ v'.terminal.alternateSavedCtx = v.terminal.alternateSavedCtx
+      ∧ v'.terminal.activeBufferType = .alternate ∧ v'.text = v.text := by
+  obtain ⟨h1, h2, h3⟩ := fr_parts (fr_feedAll ha hf h)
+  refine ⟨h1, h2, h3.trans ha, ?_⟩
+  show v'.terminal.text = v.terminal.text
+  rw [text_alt ha, text_alt (h3.trans ha), h1]
+
+/-- … and through `feed_str` (which ends with `changes()` and `gc()` of the *active* buffer) -/
+theorem C16_feedStr {v v' : Vt} {s : List Nat} {ch : Changes}
+    (ha : v.terminal.activeBufferType = .alternate)
+    (hf : ∀ f ∈ emitted v.parser s, endsExcursion f = false) (h : v.feedStr s = some (v', ch)) :
+    v'.terminal.otherBuffer = v.terminal.otherBuffer
+      ∧ v'.terminal.alternateSavedCtx = v.terminal.alternateSavedCtx
+      ∧ v'.terminal.activeBufferType = .alternate ∧ v'.text = v.text := by
+  obtain ⟨h1, h2, h3⟩ := fr_parts (fr_feedStr ha hf h)
+  refine ⟨h1, h2, h3.trans ha, ?_⟩
+  show v'.terminal.text = v.terminal.text
+  rw [text_alt ha, text_alt (h3.trans ha), h1]
+
+/-- … and through `Vt::resize` -/
+theorem C16_vtResize {v v' : Vt} {c r : Nat} {ch : Changes}
+    (ha : v.terminal.activeBufferType = .alternate) (h : v.resize c r = some (v', ch)) :
+    v'.terminal.otherBuffer = v.terminal.otherBuffer
+      ∧ v'.terminal.alternateSavedCtx = v.terminal.alternateSavedCtx
+      ∧ v'.terminal.activeBufferType = .alternate ∧ v'.text = v.text := by
+  obtain ⟨h1, h2, h3⟩ := fr_parts (fr_vtResize h)
+  refine ⟨h1, h2, h3.trans ha, ?_⟩
+  show v'.terminal.text = v.terminal.text
+  rw [text_alt ha, text_alt (h3.trans ha), h1]
+
+/-! ### entering -/
+
+theorem resizeSame : ResizeSame := fun b cur h hc => Buffer.resize_same b cur h hc
+
+theorem exec_decset_one {t : Terminal} {m : DecMode} : t.execute (.decset [m]) = t.decsetOne m := by
+  simp only [Terminal.execute, Terminal.foldM']
+  cases t.decsetOne m <;> rfl
+
+theorem exec_decrst_one {t : Terminal} {m : DecMode} : t.execute (.decrst [m]) = t.decrstOne m := by
+  simp only [Terminal.execute, Terminal.foldM']
+  cases t.decrstOne m <;> rfl
+
+/-- **C16_enter** (from `ResizeSame`).  `DECSET 47/1047/1049` on the primary screen: the new screen
+    is `rows × cols` blank cells carrying the current pen, unwrapped, without scrollback; the primary
+    buffer is parked as it is; its saved context is parked too — for 1049 after saving the cursor
+    (column clamped to `cols-1`), pen, origin mode and auto-wrap mode; `text()` is unchanged. -/
+theorem C16_enter_of (hRS : ResizeSame) {m t : Terminal} {me : DecMode} (hinv : TInv m = true)
+    (hp : m.activeBufferType = .primary) (hme : isAltScreenMode me = true)
+    (h : m.execute (.decset [me]) = some t) :
+    freshAlternate m t = true ∧ t.otherBuffer = m.buffer
+      ∧ t.alternateSavedCtx = parkedCtx m (me == .saveCursorAltScreenBuffer) ∧ t.pen = m.pen
+      ∧ t.text = m.text := by
+  rw [exec_decset_one] at h
+  obtain ⟨e1, e2, e3⟩ := enter_spec hRS hinv hp hme h
+  obtain ⟨hb, _, hpen, _⟩ := sc_buffer e3
+  obtain ⟨hc, hr⟩ := geo_parts e2
+  simp only [fr, Prod.mk.injEq] at e1
+  obtain ⟨h1, h2, h3⟩ := e1
+  refine ⟨?_, h1, h2, hpen, ?_⟩
+  · simp [freshAlternate, h3, hc, hr, hb, Buffer.new, blankScreen]
+  · rw [text_alt h3, text_prim hp, h1]
+
+theorem C16_enter {m t : Terminal} {me : DecMode} (hinv : TInv m = true)
+    (hp : m.activeBufferType = .primary) (hme : isAltScreenMode me = true)
+    (h : m.execute (.decset [me]) = some t) :
+    freshAlternate m t = true ∧ t.otherBuffer = m.buffer
+      ∧ t.alternateSavedCtx = parkedCtx m (me == .saveCursorAltScreenBuffer) ∧ t.pen = m.pen
+      ∧ t.text = m.text := C16_enter_of resizeSame hinv hp hme h
+
+/-! ### the whole excursion -/
+
+/-- what holds at every point of an excursion entered from `m` with mode `me` -/
+structure During (m : Terminal) (me : DecMode) (t : Terminal) : Prop where
+  inv : TInv t = true
+  alt : t.activeBufferType = .alternate
+  parked : t.otherBuffer = m.buffer
+  ctx : t.alternateSavedCtx = parkedCtx m (me == .saveCursorAltScreenBuffer)
+  size : t.cols = m.cols ∧ t.rows = m.rows
+
+theorem during_enter {m t : Terminal} {me : DecMode} (hinv : TInv m = true)
+    (hp : m.activeBufferType = .primary) (hme : isAltScreenMode me = true)
+    (h : m.execute (.decset [me]) = some t) : During m me t := by
+  have h' := h
+  rw [exec_decset_one] at h'
+  obtain ⟨e1, e2, _⟩ := enter_spec resizeSame hinv hp hme h'
+  simp only [fr, Prod.mk.injEq] at e1
+  obtain ⟨t', ht', hok⟩ := Terminal.execute_ok resizeOK (.decset [me]) (TOK.of_TInv hinv)
+  rw [h] at ht'; cases ht'
+  exact ⟨hok.TInv, e1.2.2, e1.1, e1.2.1, geo_parts e2⟩
+
+theorem during_step {m t t' : Terminal} {me : DecMode} {f : Function} (hd : During m me t)
+    (hf : endsExcursion f = false) (h : t.execute f = some t') : During m me t' := by
+  obtain ⟨h1, h2, h3⟩ := C16_frame hd.alt hf h
+  obtain ⟨t'', ht'', hok⟩ := Terminal.execute_ok resizeOK f (TOK.of_TInv hd.inv)
+  rw [h] at ht''; cases ht''
+  obtain ⟨hc, hr⟩ := geo_parts (geo_execute (tinv_parts hd.inv).2.2.2.2.2.2 h)
+  exact ⟨hok.TInv, h3, h1.trans hd.parked, h2.trans hd.ctx, hc.trans hd.size.1, hr.trans hd.size.2⟩
+
+theorem during_all {m t0 t1 : Terminal} {me : DecMode} {fs : List Function} (hd : During m me t0)
+    (hfs : ∀ f ∈ fs, endsExcursion f = false) (h : Terminal.foldM' Terminal.execute fs t0 = some t1) :
+    During m me t1 :=
+  foldM'_inv (f := Terminal.execute) (During m me) (ms := fs)
+    (fun _ f _ hmem hb hs => during_step hb (hfs f hmem) hs) hd h
+
+/-- **C16_roundtrip.**  Enter (`?47/1047/1049h`) from any state `m` of the primary screen, execute
+    any functions that neither leave nor hard-reset, leave (`?47/1047/1049l`, any of the three): the
+    terminal is back on the primary screen with the size of `m`, and the primary's view, scrollback,
+    geometry and limit are those of `m` (only `trim_needed` is set) — hence `text()` too. -/
+theorem C16_roundtrip {m t0 t1 t2 : Terminal} {me ml : DecMode} {fs : List Function}
+    (hinv : TInv m = true) (hp : m.activeBufferType = .primary)
+    (hme : isAltScreenMode me = true) (hml : isAltScreenMode ml = true)
+    (h0 : m.execute (.decset [me]) = some t0)
+    (hfs : ∀ f ∈ fs, endsExcursion f = false)
+    (h1 : Terminal.foldM' Terminal.execute fs t0 = some t1)
+    (h2 : t1.execute (.decrst [ml]) = some t2) :
+    t2.activeBufferType = .primary ∧ t2.buffer = { m.buffer with trimNeeded := true }
+      ∧ sameBuffer t2.buffer m.buffer = true ∧ t2.cols = m.cols ∧ t2.rows = m.rows
+      ∧ t2.text = m.text := by
+  have hd := during_all (during_enter hinv hp hme h0) hfs h1
+  rw [exec_decrst_one] at h2
+  obtain ⟨hbc, hbr, _⟩ := tinv_parts hinv
+  obtain ⟨a1, a2, a3, _⟩ := leave_spec resizeSame hd.inv hd.alt hml
+    (by rw [hd.parked, hbc, hd.size.1]) (by rw [hd.parked, hbr, hd.size.2]) h2
+  obtain ⟨hc, hr⟩ := geo_parts a2
+  rw [hd.parked] at a3
+  refine ⟨a1, a3, ?_, hc.trans hd.size.1, hr.trans hd.size.2, ?_⟩
+  · simp [sameBuffer, a3]
+  · rw [text_prim a1, text_prim hp, a3]; rfl
+
+/-- the same seen through the API: after the `changes()` + `gc()` that end the leaving call the
+    primary is `primaryRestored` — view identical, scrollback identical up to the trim `gc()` performs
+    when it is longer than the hard limit (never after a `feed_str`/`resize` call) -/
+theorem C16_roundtrip_api {m t0 t1 t2 : Terminal} {me ml : DecMode} {fs : List Function}
+    (hinv : TInv m = true) (hp : m.activeBufferType = .primary)
+    (hme : isAltScreenMode me = true) (hml : isAltScreenMode ml = true)
+    (h0 : m.execute (.decset [me]) = some t0)
+    (hfs : ∀ f ∈ fs, endsExcursion f = false)
+    (h1 : Terminal.foldM' Terminal.execute fs t0 = some t1)
+    (h2 : t1.execute (.decrst [ml]) = some t2) :
+    primaryRestored m (Spec.finishT t2) = true := by
+  obtain ⟨a1, a2, _⟩ := C16_roundtrip hinv hp hme hml h0 hfs h1 h2
+  obtain ⟨g1, g2, g3, g4, g5⟩ := gc_trimmed t2.buffer (by rw [a2])
+  have hb : (Spec.finishT t2).buffer = t2.buffer.gc.1 := by
+    simp only [Spec.finishT, Terminal.changes, Terminal.gc]
+  have ha : (Spec.finishT t2).activeBufferType = t2.activeBufferType := by
+    simp only [Spec.finishT, Terminal.changes, Terminal.gc]
+  have ht : trimmedSb t2.buffer = trimmedSb m.buffer := by rw [a2]; rfl
+  have hv : t2.buffer.view = m.buffer.view := by rw [a2]
+  have hc : t2.buffer.cols = m.buffer.cols := by rw [a2]
+  have hr : t2.buffer.rows = m.buffer.rows := by rw [a2]
+  have hl : t2.buffer.limit = m.buffer.limit := by rw [a2]
+  simp only [primaryRestored, hb, ha, a1, g1, g2, g3, g4, g5, ht, hv, hc, hr, hl, beq_self_eq_true,
+    Bool.and_self]
+
+/-- **C16_1049.**  With `?1049h … ?1049l` the cursor is back at `(min col (cols-1), row)` of the mark,
+    with the mark's pen, origin mode and auto-wrap mode; `pending_wrap` is off. -/
+theorem C16_1049 {m t0 t1 t2 : Terminal} {fs : List Function}
+    (hinv : TInv m = true) (hp : m.activeBufferType = .primary)
+    (h0 : m.execute (.decset [.saveCursorAltScreenBuffer]) = some t0)
+    (hfs : ∀ f ∈ fs, endsExcursion f = false)
+    (h1 : Terminal.foldM' Terminal.execute fs t0 = some t1)
+    (h2 : t1.execute (.decrst [.saveCursorAltScreenBuffer]) = some t2) :
+    t2.cursor.col = min m.cursor.col (m.cols - 1) ∧ t2.cursor.row = m.cursor.row ∧ t2.pen = m.pen
+      ∧ t2.originMode = m.originMode ∧ t2.autoWrapMode = m.autoWrapMode ∧ t2.pendingWrap = false := by
+  have hd := during_all (during_enter hinv hp rfl h0) hfs h1
+  rw [exec_decrst_one] at h2
+  obtain ⟨hbc, hbr, _⟩ := tinv_parts hinv
+  obtain ⟨_, _, _, a4⟩ := leave_spec resizeSame hd.inv hd.alt (m := .saveCursorAltScreenBuffer) rfl
+    (by rw [hd.parked, hbc, hd.size.1]) (by rw [hd.parked, hbr, hd.size.2]) h2
+  have := a4 rfl
+  rw [hd.ctx] at this
+  simpa [ctxRestored, parkedCtx, entryCtx, and_assoc] using this
+
+/-- a leave with 1049 after an entry with 47/1047 restores whatever context the primary had saved -/
+theorem C16_1049_mixed {m t0 t1 t2 : Terminal} {me : DecMode} {fs : List Function}
+    (hinv : TInv m = true) (hp : m.activeBufferType = .primary) (hme : isAltScreenMode me = true)
+    (h0 : m.execute (.decset [me]) = some t0)
+    (hfs : ∀ f ∈ fs, endsExcursion f = false)
+    (h1 : Terminal.foldM' Terminal.execute fs t0 = some t1)
+    (h2 : t1.execute (.decrst [.saveCursorAltScreenBuffer]) = some t2) :
+    ctxRestored (parkedCtx m (me == .saveCursorAltScreenBuffer)) t2 = true := by
+  have hd := during_all (during_enter hinv hp hme h0) hfs h1
+  rw [exec_decrst_one] at h2
+  obtain ⟨hbc, hbr, _⟩ := tinv_parts hinv
+  obtain ⟨_, _, _, a4⟩ := leave_spec resizeSame hd.inv hd.alt (m := .saveCursorAltScreenBuffer) rfl
+    (by rw [hd.parked, hbc, hd.size.1]) (by rw [hd.parked, hbr, hd.size.2]) h2
+  have := a4 rfl
+  rw [hd.ctx] at this
+  exact this
+
+/-! ### the oracle's fast text function is `text()` -/
+
+theorem C16_textOf (t : Terminal) : textOf t = t.text := textOf_eq t
+
+/-! ### resized excursions (statement only — rests on C10) -/
+
+/-- **C16_resized_full** (not proved here).  If the terminal was resized while the alternate screen
+    was showing, then on return the invariant holds, the primary's logical text is that of the mark up
+    to what the shrinking cut off at the end (`textRel`, before the `gc()` of the leaving call hands
+    out scrollback lines), and the API-level geometry is consistent.  This is the statement of C10
+    (resize keeps the logical text and the cursor's place) applied to the deferred `Buffer.resize`
+    of the parked buffer, with the old-geometry cursor; the sharper clause about the cursor ("a 1049
+    excursion puts the cursor back on the same character") is C10's `cursor` clause verbatim. -/
+def C16_resized_full : Prop :=
+  ∀ (m t1 t2 : Terminal) (ml : DecMode),
+    TInv m = true → m.activeBufferType = .primary →
+    TInv t1 = true → t1.activeBufferType = .alternate → t1.otherBuffer = m.buffer →
+    isAltScreenMode ml = true → t1.execute (.decrst [ml]) = some t2 →
+      TInv t2 = true ∧ t2.activeBufferType = .primary ∧ t2.buffer.cols = t1.cols ∧ t2.buffer.rows = t1.rows
+        ∧ textRel m.text t2.text = true
+
+/-! ### a concrete excursion -/
+
+/-- 4×2 terminal, one line of scrollback, text on the screen, cursor at (3,1) with a bold pen:
+    `?1049h`, print, erase display, scroll, `?1049l`. -/
+def exM : Terminal :=
+  let t := (Terminal.new 4 2 (some 10)).getD default
+  let t := (Terminal.foldM' Terminal.execute
+    [.print 0x61, .print 0x62, .lf, .lf, .print 0x63, .sgr [.setBold], .cup 2 4] t).getD default
+  (Spec.finishT t)
+
+def exFs : List Function := [.print 0x78, .ed .all, .lf, .lf, .print 0x79, .decset [.saveCursorAltScreenBuffer], .decaln]
+
+example : TInv exM = true ∧ exM.activeBufferType = .primary ∧ exM.buffer.sb.length = 1
+    ∧ exM.cursor.col = 3 ∧ exM.cursor.row = 1 := by decide
+
+def exT0 : Terminal := (exM.execute (.decset [.saveCursorAltScreenBuffer])).getD default
+def exT1 : Terminal := (Terminal.foldM' Terminal.execute exFs exT0).getD default
+def exT2 : Terminal := (exT1.execute (.decrst [.saveCursorAltScreenBuffer])).getD default
+
+example : exM.execute (.decset [.saveCursorAltScreenBuffer]) = some exT0
+    ∧ Terminal.foldM' Terminal.execute exFs exT0 = some exT1
+    ∧ exT1.execute (.decrst [.saveCursorAltScreenBuffer]) = some exT2
+    ∧ exT1.buffer.view ≠ exT0.buffer.view
+    ∧ sameBuffer exT2.buffer exM.buffer = true ∧ exT2.cursor.col = 3 ∧ exT2.cursor.row = 1
+    ∧ exT2.text = exM.text ∧ exT2.pen.intensity = .bold := by decide +kernel
+
+end Avt.Props.C16
